@@ -36,7 +36,8 @@ def opEsc (args : List String) : String :=
       | some tbl =>
         let isOther := lookupOther tbl
         let t := trimNewlines bs
-        let (k, e) := written mode isOther t
+        let k := (written mode isOther t).1
+        let e := writtenText mode isOther t
         let made : String := match k with
           | .equal => "eq " ++ hexText e
           | .escaped => "es " ++ (match escapedMake e with | some b => hex b | none => "err")
